@@ -20,7 +20,15 @@ def confirm(wt, name):
     res = {}
     rc, out = sh(["git", "status", "--porcelain", "--", "src"], cwd=wt)
     assert out.strip() == "", "worktree src not clean: " + out
-    rc, out = sh(f"cargo run --offline --target-dir {tgt}", cwd=demo)
+    needs = ""
+    try:
+        needs = json.load(open(os.path.join(d, "meta.json"))).get("demo_needs", "")
+    except Exception:
+        pass
+    # a change whose only effect is undefined behaviour: the demonstration runs under the interpreter
+    runcmd = (f"MIRIFLAGS=-Zmiri-disable-isolation cargo +nightly miri run --offline --target-dir {tgt}_miri" if needs == "miri" else f"cargo run --offline --target-dir {tgt}")
+    res["demo_runner"] = "miri" if needs == "miri" else "native"
+    rc, out = sh(runcmd, cwd=demo)
     res["demo_without"] = rc
     rc, out = sh(["git", "apply", patch], cwd=wt)
     assert rc == 0, out
@@ -28,7 +36,7 @@ def confirm(wt, name):
         rc, out = sh(f"cargo test --workspace --offline --target-dir {tgt}", cwd=wt)
         res["tests_rc"] = rc
         res["tests_171"] = "171 passed; 0 failed" in out
-        rc, out = sh(f"cargo run --offline --target-dir {tgt}", cwd=demo, timeout=600)
+        rc, out = sh(runcmd, cwd=demo, timeout=1200)
         res["demo_with"] = rc
         res["demo_with_tail"] = out[-300:]
     finally:
